@@ -228,6 +228,11 @@ def never_succeeded_one(chk, sseed, forced=False):
 def run(chk, tier, rng):
     for i in range(8 if tier == "quick" else 150):
         never_succeeded_one(chk, f"C02n-{chk.seed}-{i}", forced=(i < 3))
+    from props import c01
+    for i in range(6 if tier == "quick" else 100):
+        # a required pool file that persistently fails next to an ignore_errors entry which is a string prefix of its directory:
+        # the run has failed and must exit non-zero (seed agent-C02-16: should_ignore_errors by str.startswith)
+        c01.ignore_prefix_sibling(chk, f"C02i-{chk.seed}-{i}")
     n = 120 if tier == "quick" else 2400
     for i in range(n):
         run_one(chk, f"C02-{chk.seed}-{i}", CLASSES[i % len(CLASSES)])
